@@ -1,6 +1,6 @@
 SPECIFICATION Spec
 CONSTANTS Dims = {1, 2, 4, 6}
-          MaxRank = 4
+          MaxRank = 3
 INVARIANT IsPartition
 INVARIANT DeclaredCount
 INVARIANT EqualSizes
